@@ -1,8 +1,8 @@
 from props import sched_common
 
 THEOREMS = ["Dispenso.Sched." + t for t in ['C05_capture_state', 'C05_rethrows_le_captures', 'C05_captured_nodup', 'C05_capture_once', 'C05_rethrow_after_zero', 'C05_done_delivers']]
-# (flavour, scenarios in the quick tier): 0 mixed, 1 without resize, 2 resize-heavy, 3 overloaded pool + chains
-FLAVOURS = [(1, 250), (0, 150)]
+# (flavour, scenarios in the quick tier): 0 mixed, 1 without resize, 2 resize-heavy (incl. resize(0) held in join while a ring-routed bulk arrives), 3 overloaded pool + chains, 4 workers parked between submissions, 5 exception-heavy
+FLAVOURS = [(5, 200), (1, 120), (0, 80)]
 
 
 def run(ctx, replay):
